@@ -43,6 +43,8 @@ type sysPeer struct {
 	stores map[string]Store // by database address
 	wrote  bool             // this peer has acknowledged writes
 	gen    int              // number of times its storage was wiped
+	// cancelParent cancels the context the instance was created with
+	cancelParent context.CancelFunc
 }
 
 type sysWorld struct {
@@ -88,7 +90,9 @@ func (w *sysWorld) boot(name string, prev *sysPeer, wipe bool) *sysPeer {
 	}
 	p.node = w.net.Node(p.id)
 	d := vstub.Dir(p.dir)
-	o, err := newOrbitDB(context.Background(), env.IPFS, env.Identity, &NewOrbitDBOptions{
+	pctx, pcancel := context.WithCancel(context.Background())
+	p.cancelParent = pcancel
+	o, err := newOrbitDB(pctx, env.IPFS, env.Identity, &NewOrbitDBOptions{
 		Cache: cacheleveldown.New(nil), Directory: &d, DirectChannelFactory: p.node.DirectFactory(),
 		PubSub: p.node, EventBus: env.Bus, PeerID: p.id,
 	})
@@ -587,4 +591,147 @@ func VerifSysTwoDBs() {
 	va, vb := a.stores[addrB].(iface.KeyValueStore).All(), b.stores[addrB].(iface.KeyValueStore).All()
 	vstub.Assert(len(va) == len(vb) && len(va) == nB, "C01 both replicas of the key-value database show the same keys")
 	w.wireClean(a.o)
+}
+
+// VerifSysClose (C18): a real orbitDB instance holding two databases is closed
+// - the whole instance, or one of its stores - at ANY visible operation of a
+// cross-instance replication (head exchange on join travelling over the direct
+// channel, fetches, joins), of a local write, or when idle; Close is then
+// repeated.  Nothing is left running once the other instance is closed too,
+// later operations on the closed stores and instance return, and a new
+// instance on the same directory reopens both databases with every
+// acknowledged entry.
+func VerifSysClose() {
+	w := newSysWorld()
+	a := w.boot("a", nil, false)
+	b := w.boot("b", nil, false)
+	if a == nil || b == nil {
+		return
+	}
+	sa, sb := a.create("dbA", "eventlog"), a.create("dbB", "eventlog")
+	if sa == nil || sb == nil {
+		return
+	}
+	addrA, addrB := sa.Address().String(), sb.Address().String()
+	if b.open(addrA) == nil || b.open(addrB) == nil {
+		return
+	}
+	vstub.WaitIdle()
+	// acknowledged writes on b (must survive), then a partition during which a writes
+	mineA := b.add(addrA, 'b')
+	mineB := b.add(addrB, 'b')
+	if mineA == nil || mineB == nil {
+		return
+	}
+	vstub.WaitIdle()
+	w.net.Cut(a.id, b.id)
+	for k := 0; k < vstub.Param("N", 2); k++ {
+		if a.add(addrA, 'a') == nil {
+			return
+		}
+	}
+	vstub.WaitIdle()
+
+	full := vstub.Param("FULL", 0) == 1
+	target := vstub.NdChoice("close-what", 2) // 0 the whole instance, 1 only store A of b
+	closer := func() {
+		go func() {
+			if target == 0 {
+				_ = b.o.Close()
+			} else {
+				_ = b.stores[addrA].Close()
+			}
+		}()
+	}
+	ctx := context.Background()
+	var late ipfslog.Entry
+	activity := vstub.NdChoice("activity", 3)
+	// the choices after the close (parent context, repeats, later operation) are
+	// explored in full when the instance was idle; after a close in the middle of
+	// an activity only with FULL=1 (thorough tier)
+	wide := full || activity == 0
+	switch activity {
+	case 0:
+		closer()
+		vstub.Cover("idle")
+	case 1: // while the heads of both databases arrive and replicate
+		vstub.FaultAtAnyStep(closer)
+		w.net.Heal(a.id, b.id)
+		vstub.WaitIdle()
+		vstub.Cover("mid-replication")
+	case 2: // while b writes locally
+		vstub.FaultAtAnyStep(closer)
+		op, err := b.stores[addrA].(iface.EventLogStore).Add(ctx, []byte("late"))
+		if err == nil {
+			late = op.GetEntry()
+		}
+		vstub.Cover("mid-write")
+	}
+	vstub.WaitIdle()
+	vstub.FaultDisarm()
+	// the context the application created the instance with may be cancelled
+	// before Close is called (signal-driven shutdown, deferred calls in the
+	// "wrong" order): Close must still close everything
+	if wide && vstub.NdChoice("parent-context-cancelled-first", 2) == 1 {
+		b.cancelParent()
+		vstub.WaitIdle()
+		vstub.Cover("parent-cancelled-first")
+	}
+	repeats := 1
+	if wide {
+		repeats = 1 + vstub.NdChoice("repeats", 2)
+	}
+	for k := 0; k < repeats; k++ {
+		if err := b.o.Close(); err != nil {
+			vstub.Fail("C18 instance Close reported an error")
+		}
+	}
+	vstub.WaitIdle()
+	vstub.Cover("closed")
+	// later operations on the closed instance / stores return (error or harmless result)
+	later := 2
+	if wide {
+		later = vstub.NdChoice("later", 5)
+	}
+	switch later {
+	case 0:
+		_, _ = b.stores[addrA].(iface.EventLogStore).Add(ctx, []byte("x"))
+	case 1:
+		_ = b.stores[addrB].Load(ctx, -1)
+	case 2:
+		_ = b.stores[addrA].Sync(ctx, a.stores[addrA].OpLog().Heads().Slice())
+	case 3:
+		_ = b.stores[addrB].Close()
+	case 4:
+		_, _ = b.o.Open(ctx, addrA, &CreateDBOptions{IO: b.env.IO})
+		_ = b.o.Close()
+	}
+	vstub.WaitIdle()
+	vstub.Cover("later-returned")
+	// with the other instance closed as well, nothing at all may be left running
+	if err := a.o.Close(); err != nil {
+		vstub.Fail("C18 instance Close reported an error")
+	}
+	vstub.WaitIdle()
+	vstub.Assert(vstub.LiveThreads("berty.tech/go-orbit-db/stores") == 0, "C18 closing the instances leaves no store activity behind")
+	vstub.Assert(vstub.LiveThreads("berty.tech/go-orbit-db/baseorbitdb") == 0, "C18 closing the instances leaves no instance activity behind")
+
+	// a new instance on b's directory reopens both databases with all acknowledged data
+	b.o = nil
+	nb := w.boot("b", b, false)
+	if nb == nil {
+		return
+	}
+	ra, rb := nb.open(addrA), nb.open(addrB)
+	if ra == nil || rb == nil {
+		return
+	}
+	vstub.WaitIdle()
+	vstub.Cover("reopened")
+	vstub.Assert(sysHolds(ra, mineA), "C18 data acknowledged before Close is there after reopening (A)")
+	vstub.Assert(sysHolds(rb, mineB), "C18 data acknowledged before Close is there after reopening (B)")
+	if late != nil {
+		vstub.Assert(sysHolds(ra, late), "C18 a write acknowledged while Close was running is there after reopening")
+	}
+	_ = nb.o.Close()
 }
